@@ -9,6 +9,7 @@ package signing
 import (
 	"fmt"
 	"math/big"
+	"sort"
 
 	"github.com/keep-network/keep-core/internal/testutils"
 	"github.com/keep-network/keep-core/pkg/protocol/group"
@@ -82,4 +83,27 @@ func VerifC08SigningParties(
 		out.SortedBack = append(out.SortedBack, int(m.identityConverter.TssPartyIDToMemberIndex(id)))
 	}
 	return out, nil
+}
+
+// VerifC08Describe exposes, for a protocol message of this package, the fields
+// the C08 harness observes on the wire: the sender, the session and -- for the
+// messages that carry point-to-point parts -- the member indexes addressed.
+func VerifC08Describe(m interface{}) (typ string, sender int, session string, peers []int, hasPeers bool) {
+	pm, ok := m.(message)
+	if !ok {
+		return "", 0, "", nil, false
+	}
+	typ, sender, session = pm.Type(), int(pm.SenderID()), pm.SessionID()
+	var pp map[group.MemberIndex][]byte
+	switch x := m.(type) {
+	case *tssRoundOneMessage:
+		pp, hasPeers = x.peersPayload, true
+	case *tssRoundTwoMessage:
+		pp, hasPeers = x.peersPayload, true
+	}
+	for k := range pp {
+		peers = append(peers, int(k))
+	}
+	sort.Ints(peers)
+	return
 }
